@@ -14,6 +14,7 @@ import (
 	"fmt"
 	"io"
 	"os"
+	"runtime/debug"
 	"sort"
 	"strconv"
 	"strings"
@@ -188,6 +189,9 @@ func main() {
 		fmt.Fprintf(os.Stderr, "usage: binder replay|record <family> [flags]; families: %v\n", names)
 		os.Exit(2)
 	}
+	// unbounded recursion in the library under test should end in the runtime's stack-overflow report quickly, not after
+	// a gigabyte of stack
+	debug.SetMaxStack(256 << 20)
 	mode, fam := os.Args[1], os.Args[2]
 	f := families[fam]
 	if f == nil {
@@ -219,7 +223,17 @@ func main() {
 			os.Exit(2)
 		}
 		s.Family = fam
-		b, _ := json.Marshal(s)
+		b, err := json.Marshal(s)
+		if err != nil {
+			// a note holding NaN or an infinity (a worst-error statistic when the library returned one) cannot be
+			// encoded as JSON: keep the verdict, print the notes as text
+			s.Notes = map[string]any{"notes_as_text": fmt.Sprint(s.Notes)}
+			b, err = json.Marshal(s)
+		}
+		if err != nil {
+			fmt.Fprintln(os.Stderr, "binder: cannot encode the summary:", err)
+			os.Exit(2)
+		}
 		fmt.Println(string(b))
 	case "record":
 		if f.record == nil {
